@@ -352,7 +352,19 @@ func (c *fctx) assignSpecial(e *emitter, ind int, st *ast.AssignStmt) bool {
 		}
 		for _, v := range tv {
 			vt := c.leanType(st, v.Type())
-			if v == c.tapeVar {
+			passed := false
+			for _, a := range call.Args {
+				if id, ok := ast.Unparen(a).(*ast.Ident); ok && c.info().Uses[id] == v {
+					passed = true
+				}
+			}
+			if sel, ok := ast.Unparen(call.Fun).(*ast.SelectorExpr); ok {
+				if id, ok := ast.Unparen(sel.X).(*ast.Ident); ok && c.info().Uses[id] == v {
+					passed = true // the receiver
+				}
+			}
+			if v == c.tapeVar || !passed {
+				// state the callee works on without being handed it in the source (the tape; a destination the receiver holds)
 				ps = append(ps, vt)
 				args = append(args, c.nameOf(v))
 			}
